@@ -31,6 +31,9 @@ func c08Alphabet() []EngOp {
 		{Kind: "txc", Sub: []EngOp{{Kind: "put", Key: "a"}, {Kind: "put", Key: "b"}, {Kind: "del", Key: "c"}}},
 		{Kind: "txc", Sub: []EngOp{{Kind: "put", Key: "b"}}},
 		{Kind: "flush"}, {Kind: "bg"}, {Kind: "reopen"},
+		// the engine's raw batch call: a batch of two entries, and a batch without entries (writes nothing, stamps nothing)
+		{Kind: "abatch", Sub: []EngOp{{Kind: "put", Key: "a"}, {Kind: "del", Key: "b"}}},
+		{Kind: "abatch"},
 	}
 }
 
@@ -43,6 +46,14 @@ func progWrites(prog []EngOp) [][]string {
 			w = append(w, []string{"put:" + o.Key})
 		case "del":
 			w = append(w, []string{"del:" + o.Key})
+		case "abatch":
+			var b []string
+			for _, s := range o.Sub {
+				b = append(b, s.Kind+":"+s.Key)
+			}
+			if len(b) > 0 {
+				w = append(w, b)
+			}
 		case "txc":
 			// the buffer keeps the last operation per key and commits in key order
 			last := map[string]string{}
@@ -139,7 +150,7 @@ func init() {
 	fw.Register(&fw.Check{
 		ID:    "C08",
 		Level: "model_checking",
-		Rule: "explicit-state search over engine programs {put a, del a, put b, 3-entry commit, 1-entry commit, flush, bg, reopen} up to the depth per configuration (memtable 32 MiB / 1 B / 40 B; wal_max_size 1 B so that every reopening starts a new log file instead of continuing the newest one); after each program: storage_last_sequence sampled after every step never decreases (also across reopen) and is not behind the last stamp; the log directory read back in file order holds exactly the program's writes in issue order, every write stamped strictly higher than every earlier one, all entries of one batch stamped alike. Concurrent part: stateless exploration (deviation bound 2 quick / 3 thorough, one less for the three-thread scenario) of 4 scenarios in which two client threads write while a flush rotates the log (explicit flush caller, or memtable size 1 B); oracle on every execution: the stamp (read back from the log) of every acknowledged write is strictly greater than the stamp of every write acknowledged before it started. Retention: real engine + real replication.Primary + one in-memory replica session, 3 variants (everything acknowledged / one behind / everything acknowledged and 25 h old): writes, flush, the acknowledgement (which runs the primary's log retention), restart, one more write - the reported last sequence does not drop, the new write is stamped above the old ones and is read back. Crash recoveries are covered by C02's enumeration, which applies the same stamp rule after recovery. Non-trivial = programs with >=2 steps",
+		Rule: "explicit-state search over engine programs {put a, del a, put b, 3-entry commit, 1-entry commit, flush, bg, reopen, raw 2-entry batch, raw batch without entries} up to the depth per configuration (memtable 32 MiB / 1 B / 40 B; wal_max_size 1 B so that every reopening starts a new log file instead of continuing the newest one); after each program: storage_last_sequence sampled after every step never decreases (also across reopen) and is not behind the last stamp; the log directory read back in file order holds exactly the program's writes in issue order, every write stamped strictly higher than every earlier one, all entries of one batch stamped alike. Concurrent part: stateless exploration (deviation bound 2 quick / 3 thorough, one less for the three-thread scenario) of 4 scenarios in which two client threads write while a flush rotates the log (explicit flush caller, or memtable size 1 B); oracle on every execution: the stamp (read back from the log) of every acknowledged write is strictly greater than the stamp of every write acknowledged before it started. Retention: real engine + real replication.Primary + one in-memory replica session, 3 variants (everything acknowledged / one behind / everything acknowledged and 25 h old): writes, flush, the acknowledgement (which runs the primary's log retention), restart, one more write - the reported last sequence does not drop, the new write is stamped above the old ones and is read back. Crash recoveries are covered by C02's enumeration, which applies the same stamp rule after recovery. Non-trivial = programs with >=2 steps",
 		Assumptions: []string{"the stamp of a write is read from the log, which is what replication ships"},
 		Units: func(tier string) []string {
 			var us []string
@@ -148,7 +159,7 @@ func init() {
 				depth = map[string]int{"big": 7, "tiny": 6, "two": 6, "tiny2": 6, "bigN": 6, "norw": 6}
 			}
 			for _, cfg := range sortedKeys(depth) {
-				for i := 0; i < 5; i++ { // programs start with a write
+				for i := 0; i < 5; i++ { // programs start with a write (the raw batches come later in the alphabet)
 					us = append(us, fmt.Sprintf("prog/%s/%d/%d", cfg, depth[cfg], i))
 				}
 			}
